@@ -18,9 +18,13 @@ from .report import Ctx
 
 
 def run_check(prop: str, tier: str, overlay=None, overlay_text=None, quiet: bool = False) -> int:
+    import time
+
+    t0 = time.time()
     program = Program(overlay=overlay, overlay_text=overlay_text)
     typer = Typer(program)
     ctx = Ctx(prop, tier, program, typer)
+    ctx.t0 = t0
     mod = importlib.import_module(f"sa.props.{prop.lower()}")
     mod.run(ctx)
     return ctx.finish()
